@@ -107,11 +107,11 @@ Faults == {"none", "enc-unknown", "enc-empty", "enc-interface", "enc-enum", "enc
            "port-type-missing", "port-type-wrong-kind", "port-type-ambiguous", "port-type-ambiguous-chain",
            "sel-unknown", "sel-unassigned", "sel-contradictory", "sel-all-plus", "sel-all-remaining", "sel-mixed-provides",
            "sel-equal-none",
-           "mc-port-unknown", "mc-port-requires", "mc-port-requires-same-itf", "mc-port-sts", "mc-claim-unknown", "mc-reply-not-enum",
+           "mc-port-unknown", "mc-port-requires", "mc-port-requires-same-itf", "mc-port-sts", "mc-port-sts-remaining", "mc-claim-unknown", "mc-reply-not-enum",
            "mc-grant-bad", "mc-release-unknown", "mc-release-out", "mc-release-is-claim",
            "mc-port-empty", "mc-claim-empty", "mc-grant-empty", "mc-release-empty",
            "formal-missing", "formal-wrong-kind", "formal-ambiguous", "formal-ambiguous-chain"}
-McFaults == {"mc-port-unknown", "mc-port-requires", "mc-port-requires-same-itf", "mc-port-sts", "mc-claim-unknown", "mc-reply-not-enum",
+McFaults == {"mc-port-unknown", "mc-port-requires", "mc-port-requires-same-itf", "mc-port-sts", "mc-port-sts-remaining", "mc-claim-unknown", "mc-reply-not-enum",
              "mc-grant-bad", "mc-release-unknown", "mc-release-out", "mc-release-is-claim",
              "mc-port-empty", "mc-claim-empty", "mc-grant-empty", "mc-release-empty"}
 
@@ -143,6 +143,7 @@ Apply(m, b, f) ==
     [] f = "mc-port-requires"   -> [m EXCEPT !.cfg.mc.port = "r"]
     [] f = "mc-port-requires-same-itf" -> [m EXCEPT !.cfg.mc.port = "r1"]
     [] f = "mc-port-sts"        -> [m EXCEPT !.cfg.prov = AllSts]
+    [] f = "mc-port-sts-remaining" -> [m EXCEPT !.cfg.prov = [sts |-> Wild("REMAINING"), mts |-> Wild("NONE")]]   \* STS by the other wildcard
     [] f = "mc-claim-unknown"   -> [m EXCEPT !.cfg.mc.claim = "Nope"]
     [] f = "mc-reply-not-enum"  -> [m EXCEPT !.cfg.mc.claim = "Other"]
     [] f = "mc-grant-bad"       -> [m EXCEPT !.cfg.mc.grant = <<"Maybe">>]
